@@ -12,6 +12,12 @@
 //	        Unmarshal + DeriveKey(correct passphrase)
 //	mgr     waddrmgr.Manager.Encrypt/Decrypt per crypto key type, unlocked
 //	        and locked, same tampering as "cipher"
+//	mgrpass waddrmgr: Open (public passphrase), Unlock on a locked and on an
+//	        unlocked manager, ChangePassphrase's old-passphrase check (public
+//	        and private), each with the right passphrase and every near miss
+//
+// Near misses: nearmiss.go.  -probe (probe.go) prints the behaviourally
+// determined code facts for lib/extract_c17.py instead of running cases.
 //
 // Outcome classes are small integers shared with coq/Crypto/SnaclCorr.v.
 package main
@@ -22,9 +28,11 @@ import (
 	"encoding/hex"
 	"encoding/json"
 	"errors"
+	"flag"
 	"fmt"
 	"os"
 	"path/filepath"
+	"runtime"
 	"time"
 
 	"github.com/btcsuite/btcd/btcutil/hdkeychain"
@@ -71,13 +79,30 @@ type c17Input struct {
 	KT     int    `json:"kt"`
 	Locked bool   `json:"locked,omitempty"`
 	AllKey bool   `json:"all_key_flips,omitempty"`
+	// pass / mgrpass: when present, ONLY these passphrases (hex) are presented
+	// instead of the generated near misses (a replay that names the failing pair)
+	Try []string `json:"try,omitempty"`
+	// mgrpass: the operation that checks a passphrase, and the manager's passphrases (hex)
+	Op   string `json:"op,omitempty"`
+	Pub  string `json:"pub,omitempty"`
+	Priv string `json:"priv,omitempty"`
 }
 
 type nearObs struct {
 	Name    string `json:"name"`
 	PW      string `json:"pw"`
-	Zeroed  int    `json:"zeroed"`  // class on the original SecretKey after Zero
-	Restart int    `json:"restart"` // class on a fresh SecretKey after Unmarshal
+	Zeroed  int    `json:"zeroed"`               // class on the original SecretKey after Zero
+	Restart int    `json:"restart"`              // class on a fresh SecretKey after Unmarshal
+	Equiv   bool   `json:"hmac_equiv,omitempty"` // same HMAC key block as the creating passphrase
+}
+
+// acceptedPair names one accepted passphrase that is not the creating one.
+type acceptedPair struct {
+	Created   string `json:"created"`   // hex
+	Presented string `json:"presented"` // hex
+	Name      string `json:"name"`
+	Kind      string `json:"kind"` // oracle kind
+	At        string `json:"at"`   // where it was accepted
 }
 
 type c17Obs struct {
@@ -94,23 +119,28 @@ type c17Obs struct {
 	Accepted  []string    `json:"accepted,omitempty"`
 	NEncrypts int         `json:"n_encrypts,omitempty"`
 	// pass / params
-	Created           string    `json:"created,omitempty"`
-	Salt              string    `json:"salt,omitempty"`
-	Digest            string    `json:"digest,omitempty"`
-	Marshalled        string    `json:"marshalled,omitempty"`
-	ZeroOK            bool      `json:"zero_ok"`
-	Exact             int       `json:"exact"`
-	Restart           int       `json:"restart"`
-	Near              []nearObs `json:"near,omitempty"`
-	Lens              [][2]int  `json:"lens,omitempty"`
-	ParamFlips        []int     `json:"param_flips,omitempty"`
-	Skipped           int       `json:"skipped,omitempty"`
-	Panics            int       `json:"panics,omitempty"`
-	KdfErrors         int       `json:"kdf_errors,omitempty"`
-	PanicSample       string    `json:"panic_sample,omitempty"`
-	LongPWHash        string    `json:"long_pw_sha256,omitempty"` // class of DeriveKey(sha256(pw)) when |pw| > 64
-	HmacEquivAccepted int       `json:"hmac_equiv_accepted,omitempty"`
-	Calls             int       `json:"calls"` // Decrypt / DeriveKey / Unmarshal calls made for this case
+	Created           string         `json:"created,omitempty"`
+	Salt              string         `json:"salt,omitempty"`
+	Digest            string         `json:"digest,omitempty"`
+	Marshalled        string         `json:"marshalled,omitempty"`
+	ZeroOK            bool           `json:"zero_ok"`
+	Exact             int            `json:"exact"`
+	Restart           int            `json:"restart"`
+	Near              []nearObs      `json:"near,omitempty"`
+	Lens              [][2]int       `json:"lens,omitempty"`
+	ParamFlips        []int          `json:"param_flips,omitempty"`
+	Skipped           int            `json:"skipped,omitempty"`
+	Panics            int            `json:"panics,omitempty"`
+	KdfErrors         int            `json:"kdf_errors,omitempty"`
+	PanicSample       string         `json:"panic_sample,omitempty"`
+	LongPWHash        string         `json:"long_pw_sha256,omitempty"` // class of DeriveKey(sha256(pw)) when |pw| > 64
+	HmacEquivAccepted int            `json:"hmac_equiv_accepted,omitempty"`
+	AcceptedPairs     []acceptedPair `json:"accepted_pairs,omitempty"`
+	// mgrpass
+	RightOK int       `json:"right_ok,omitempty"` // class of the operation with the right passphrase
+	MgrNear []mgrNear `json:"mgr_near,omitempty"`
+	StillOK bool      `json:"still_ok,omitempty"` // the right passphrase works after all attempts
+	Calls   int       `json:"calls"`              // Decrypt / DeriveKey / Unmarshal calls made for this case
 }
 
 type c17Case struct {
@@ -399,53 +429,6 @@ func acceptedKind(created, accepted []byte) string {
 	return "wrong_passphrase_accepted"
 }
 
-type near struct {
-	name string
-	pw   []byte
-}
-
-func nearMisses(pw []byte, all bool) []near {
-	var out []near
-	add := func(name string, b []byte) {
-		if !bytes.Equal(b, pw) {
-			out = append(out, near{name, b})
-		}
-	}
-	step := 1
-	if !all && len(pw) > 24 {
-		step = len(pw)/12 + 1
-	}
-	for i := 0; i < len(pw); i += step {
-		for j := 0; j < 8; j++ {
-			b := append([]byte{}, pw...)
-			b[i] ^= 1 << uint(j)
-			name := fmt.Sprintf("bit:%d:%d", i, j)
-			if j == 5 && ((pw[i] >= 'a' && pw[i] <= 'z') || (pw[i] >= 'A' && pw[i] <= 'Z')) {
-				name = fmt.Sprintf("case:%d", i)
-			}
-			add(name, b)
-		}
-	}
-	if len(pw) > 0 {
-		add("drop_last", append([]byte{}, pw[:len(pw)-1]...))
-		add("drop_first", append([]byte{}, pw[1:]...))
-		add("empty", []byte{})
-		b := append([]byte{}, pw...)
-		b[0], b[len(b)-1] = b[len(b)-1], b[0]
-		add("swap_ends", b)
-	}
-	add("append_nul", append(append([]byte{}, pw...), 0))
-	add("append_2nul", append(append([]byte{}, pw...), 0, 0))
-	add("append_nul_a", append(append([]byte{}, pw...), 0, 'a'))
-	add("append_space", append(append([]byte{}, pw...), ' '))
-	add("append_a", append(append([]byte{}, pw...), 'a'))
-	add("prepend_nul", append([]byte{0}, pw...))
-	add("doubled", append(append([]byte{}, pw...), pw...))
-	add("upper", bytes.ToUpper(pw))
-	add("lower", bytes.ToLower(pw))
-	return out
-}
-
 func runPass(in c17Input, allBits bool) c17Case {
 	cs := c17Case{In: in, Site: "snacl.SecretKey.DeriveKey", Tags: []string{"pass"}}
 	var o oracle
@@ -504,7 +487,7 @@ func runPass(in c17Input, allBits bool) c17Case {
 	}
 	// near misses on both
 	s2 := fresh()
-	for _, nm := range nearMisses(pw, allBits) {
+	for _, nm := range presented(in, pw, allBits) {
 		sk.Zero()
 		c1, _ := derive(sk, nm.pw)
 		c2 := -1
@@ -512,26 +495,24 @@ func runPass(in c17Input, allBits bool) c17Case {
 			c2, _ = derive(s2, nm.pw)
 		}
 		obs.Calls += 2
-		obs.Near = append(obs.Near, nearObs{nm.name, hx(nm.pw), c1, c2})
+		equiv := hmacBlock(pw) == hmacBlock(nm.pw)
+		obs.Near = append(obs.Near, nearObs{nm.name, hx(nm.pw), c1, c2, equiv})
 		if c1 == dkAccepted || c2 == dkAccepted {
 			k := acceptedKind(pw, nm.pw)
 			o.add(k)
 			if k == "hmac_equivalent_passphrase_accepted" {
 				obs.HmacEquivAccepted++
 			}
+			at := "after Zero"
+			if c1 != dkAccepted {
+				at = "after Unmarshal"
+			}
+			obs.AcceptedPairs = append(obs.AcceptedPairs, acceptedPair{hx(pw), hx(nm.pw), nm.name, k, at})
 		}
-	}
-	// a passphrase longer than the HMAC block and its SHA-256 (model-free:
-	// the model's hash is not SHA-256, so this is judged by the oracle only)
-	if len(pw) > 64 {
-		h := sha256.Sum256(pw)
-		sk.Zero()
-		c, _ := derive(sk, h[:])
-		obs.Calls++
-		obs.LongPWHash = fmt.Sprint(c)
-		if c == dkAccepted {
-			o.add(acceptedKind(pw, h[:]))
-			obs.HmacEquivAccepted++
+		// a passphrase longer than the HMAC block and its SHA-256 (the model's
+		// hash is not SHA-256: rendered for the model as "equivalent")
+		if nm.name == "sha256" && len(pw) > 64 {
+			obs.LongPWHash = fmt.Sprint(c1)
 		}
 	}
 	// and the right one still works after all the rejected attempts
@@ -795,12 +776,27 @@ func runMgr(e *mgrEnv, in c17Input) (c17Case, error) {
 
 var spread = []int{0, 1, 15, 16, 17, 31, 32, 33, 63, 64, 65, 255, 256, 300}
 
+// Every DeriveKey forces a garbage collection (snacl calls
+// debug.FreeOSMemory after scrypt); with many Ps each of them costs
+// milliseconds of parallel-mark start-up, with one P a fraction of that, and
+// nothing here runs concurrently.
 func main() {
-	core.Main("c17", nil, func(c *core.Common, out *core.Emitter) error {
+	runtime.GOMAXPROCS(1)
+	var probe bool
+	core.Main("c17", func(fs *flag.FlagSet) {
+		fs.BoolVar(&probe, "probe", false, "print the behaviourally determined code facts of Generated/SnaclFacts.v (probe.go) and exit")
+	}, func(c *core.Common, out *core.Emitter) error {
+		if probe {
+			return runProbe()
+		}
 		var env *mgrEnv
+		var penv *passEnv
 		defer func() {
 			if env != nil {
 				env.close()
+			}
+			if penv != nil {
+				penv.close()
 			}
 		}()
 		emit := func(cs c17Case) {
@@ -817,6 +813,12 @@ func main() {
 				emit(runPass(in, allBits))
 			case "params":
 				emit(runParams(in))
+			case "mgrpass":
+				cs, err := runMgrPass(&penv, in, allBits)
+				if err != nil {
+					return err
+				}
+				emit(cs)
 			case "mgr":
 				if env == nil {
 					var err error
@@ -846,104 +848,137 @@ func main() {
 				return run(cs.In, true)
 			})
 		}
-		r := gen.New(c.Seed, 17)
 		thorough := c.Tier == "thorough"
+		// each part draws from its own stream of the seed
+		if err := genCipher(c, gen.New(c.Seed, 17), thorough, run); err != nil {
+			return err
+		}
+		if err := genPass(c, gen.New(c.Seed, 18), thorough, run); err != nil {
+			return err
+		}
+		if err := genMgr(c, gen.New(c.Seed, 19), thorough, run); err != nil {
+			return err
+		}
+		return genMgrPass(c, gen.New(c.Seed, 20), thorough, run)
+	})
+}
 
-		// cipher: the spread of lengths (thorough: every length 0..300)
-		lens := spread
-		if thorough {
-			lens = nil
-			for i := 0; i <= 300; i++ {
-				lens = append(lens, i)
-			}
-		}
-		for k, n := range lens {
-			in := c17Input{Kind: "cipher", PT: hx(r.Bytes(n)), Key: hx(r.Bytes(32))}
-			in.AllKey = n == 32 || (thorough && k%25 == 0)
-			if err := run(in, false); err != nil {
-				return err
-			}
-		}
-		// degenerate contents: all-zero plaintext / key, all-ones
-		for _, in := range []c17Input{
-			{Kind: "cipher", PT: hx(make([]byte, 48)), Key: hx(make([]byte, 32))},
-			{Kind: "cipher", PT: hx(bytes.Repeat([]byte{0xff}, 40)), Key: hx(bytes.Repeat([]byte{0xff}, 32))},
-			{Kind: "cipher", PT: "", Key: hx(make([]byte, 32))},
-		} {
-			if err := run(in, false); err != nil {
-				return err
-			}
-		}
-		for i := 0; i < c.N; i++ {
-			n := r.Range(0, 300)
-			if r.Chance(1, 3) {
-				n = r.Range(0, 40)
-			}
-			if err := run(c17Input{Kind: "cipher", PT: hx(r.Bytes(n)), Key: hx(r.Bytes(32))}, false); err != nil {
-				return err
-			}
-		}
+type runFn func(in c17Input, allBits bool) error
 
-		// passphrases
-		passes := [][]byte{{}, []byte("a"), []byte("password"), []byte("Password1!"), []byte("correct horse battery staple"),
-			{0}, {0xff, 0xfe}, []byte("pässwörd-ünïcode"), r.Bytes(64), r.Bytes(200)}
-		np := c.N / 4
-		if thorough {
-			np = c.N / 2
+func genCipher(c *core.Common, r *gen.R, thorough bool, run runFn) error {
+	// the spread of lengths (thorough: every length 0..300)
+	lens := spread
+	if thorough {
+		lens = nil
+		for i := 0; i <= 300; i++ {
+			lens = append(lens, i)
 		}
-		for i := 0; i < np; i++ {
-			passes = append(passes, r.Bytes(r.Range(1, 40)))
+	}
+	for k, n := range lens {
+		in := c17Input{Kind: "cipher", PT: hx(r.Bytes(n)), Key: hx(r.Bytes(32))}
+		in.AllKey = n == 32 || (thorough && k%25 == 0)
+		if err := run(in, false); err != nil {
+			return err
 		}
-		for i, pw := range passes {
-			in := c17Input{Kind: "pass", Pass: hx(pw), N: 16, R: 8, P: 1}
-			if i%4 == 1 {
-				in.N, in.R, in.P = 2, 1, 1
+	}
+	// degenerate contents: all-zero plaintext / key, all-ones
+	for _, in := range []c17Input{
+		{Kind: "cipher", PT: hx(make([]byte, 48)), Key: hx(make([]byte, 32))},
+		{Kind: "cipher", PT: hx(bytes.Repeat([]byte{0xff}, 40)), Key: hx(bytes.Repeat([]byte{0xff}, 32))},
+		{Kind: "cipher", PT: "", Key: hx(make([]byte, 32))},
+	} {
+		if err := run(in, false); err != nil {
+			return err
+		}
+	}
+	for i := 0; i < c.N; i++ {
+		n := r.Range(0, 300)
+		if r.Chance(1, 3) {
+			n = r.Range(0, 40)
+		}
+		if err := run(c17Input{Kind: "cipher", PT: hx(r.Bytes(n)), Key: hx(r.Bytes(32))}, false); err != nil {
+			return err
+		}
+	}
+	return nil
+}
+
+func genPass(c *core.Common, r *gen.R, thorough bool, run runFn) error {
+	passes := basePassphrases(r.Bytes)
+	np := c.N / 4
+	if thorough {
+		np = c.N / 2
+	}
+	for i := 0; i < np; i++ {
+		passes = append(passes, r.Bytes(r.Range(1, 40)))
+	}
+	for i, pw := range passes {
+		in := c17Input{Kind: "pass", Pass: hx(pw), N: 16, R: 8, P: 1}
+		if i%4 == 1 {
+			in.N, in.R, in.P = 2, 1, 1
+		}
+		if thorough && i%4 == 2 {
+			in.N, in.R, in.P = 64, 2, 2
+		}
+		if err := run(in, thorough); err != nil {
+			return err
+		}
+	}
+	// a parameter set scrypt refuses: NewSecretKey must fail, no key
+	if err := run(c17Input{Kind: "pass", Pass: hx([]byte("x")), N: 15, R: 8, P: 1}, false); err != nil {
+		return err
+	}
+
+	// marshalled parameter flips
+	type nrp struct{ n, r, p int }
+	combos := []nrp{{16, 8, 1}, {2, 1, 1}}
+	if thorough {
+		combos = append(combos, nrp{1024, 8, 1}, nrp{16, 1, 2}, nrp{32, 2, 3}, nrp{16, 8, 1}, nrp{4096, 4, 2})
+	}
+	for i, q := range combos {
+		pw := []byte("params-" + fmt.Sprint(i))
+		if i == 1 {
+			pw = []byte{}
+		}
+		if err := run(c17Input{Kind: "params", Pass: hx(pw), N: q.n, R: q.r, P: q.p}, false); err != nil {
+			return err
+		}
+	}
+	return nil
+}
+
+func genMgr(c *core.Common, r *gen.R, thorough bool, run runFn) error {
+	mlens := []int{0, 1, 16, 33, 64, 100}
+	if thorough {
+		mlens = append(mlens, 15, 17, 31, 32, 65, 128, 255, 256, 300)
+	}
+	for _, n := range mlens {
+		for kt := 0; kt < 3; kt++ {
+			if err := run(c17Input{Kind: "mgr", PT: hx(r.Bytes(n)), KT: kt}, false); err != nil {
+				return err
 			}
-			if thorough && i%4 == 2 {
-				in.N, in.R, in.P = 64, 2, 2
-			}
+		}
+	}
+	for kt := 0; kt < 3; kt++ {
+		if err := run(c17Input{Kind: "mgr", PT: hx(r.Bytes(16)), KT: kt, Locked: true}, false); err != nil {
+			return err
+		}
+	}
+	return nil
+}
+
+// waddrmgr: where a passphrase is checked (Open with the public one, Unlock
+// and ChangePassphrase's old-passphrase check), on managers created with
+// passphrase pairs drawn from the same base family.
+func genMgrPass(c *core.Common, r *gen.R, thorough bool, run runFn) error {
+	pairs := mgrPassPairs(basePassphrases(r.Bytes), thorough)
+	for _, pp := range pairs {
+		for _, op := range mgrOps {
+			in := c17Input{Kind: "mgrpass", Op: op, Pub: hx(pp[0]), Priv: hx(pp[1])}
 			if err := run(in, thorough); err != nil {
 				return err
 			}
 		}
-		// a parameter set scrypt refuses: NewSecretKey must fail, no key
-		if err := run(c17Input{Kind: "pass", Pass: hx([]byte("x")), N: 15, R: 8, P: 1}, false); err != nil {
-			return err
-		}
-
-		// marshalled parameter flips
-		type nrp struct{ n, r, p int }
-		combos := []nrp{{16, 8, 1}, {2, 1, 1}}
-		if thorough {
-			combos = append(combos, nrp{1024, 8, 1}, nrp{16, 1, 2}, nrp{32, 2, 3}, nrp{16, 8, 1}, nrp{4096, 4, 2})
-		}
-		for i, q := range combos {
-			pw := []byte("params-" + fmt.Sprint(i))
-			if i == 1 {
-				pw = []byte{}
-			}
-			if err := run(c17Input{Kind: "params", Pass: hx(pw), N: q.n, R: q.r, P: q.p}, false); err != nil {
-				return err
-			}
-		}
-
-		// waddrmgr
-		mlens := []int{0, 1, 16, 33, 64, 100}
-		if thorough {
-			mlens = append(mlens, 15, 17, 31, 32, 65, 128, 255, 256, 300)
-		}
-		for _, n := range mlens {
-			for kt := 0; kt < 3; kt++ {
-				if err := run(c17Input{Kind: "mgr", PT: hx(r.Bytes(n)), KT: kt}, false); err != nil {
-					return err
-				}
-			}
-		}
-		for kt := 0; kt < 3; kt++ {
-			if err := run(c17Input{Kind: "mgr", PT: hx(r.Bytes(16)), KT: kt, Locked: true}, false); err != nil {
-				return err
-			}
-		}
-		return nil
-	})
+	}
+	return nil
 }
